@@ -10,7 +10,7 @@ if [ -n "${WT:-}" ] && [ -d "$WT" ]; then
 fi
 cd /verif
 git -C /repo apply $D/patch.diff || { echo "PATCH DOES NOT APPLY to /repo"; exit 3; }
-for p in C01 C02 C03 C04 C05 C06 C07 C08 C09 C10 C11 C13 C14 C15 C16 C17 C18 C19 C20; do
+for p in C01 C02 C03 C04 C05 C06 C07 C08 C09 C10 C11 C12 C13 C14 C15 C16 C17 C18 C19 C20; do
   out=$(SA_NO_EVIDENCE=1 /venv/bin/python -m sa.run $p --tier quick 2>&1); rc=$?
   if [ $rc -ne 0 ]; then echo "== $p exit=$rc"; echo "$out" | grep -E "^  at |ANALYSIS-ERROR" | cut -c1-260 | head -6; fi
 done
